@@ -4,7 +4,7 @@ import math
 from decimal import Decimal
 from fractions import Fraction
 
-from .. import gen, impl
+from .. import common, gen, impl
 
 M = impl.M
 
@@ -205,6 +205,44 @@ class Prop:
                     meta.append((cname, via, exp, {'class': cname, 'via': via, 'op': ops[-1], 'expected': exp}))
         return ops, meta
 
+    def spec_cases(self):
+        """in-range values taken from the *layout specification* (Spec/Layout.lean, through the specification
+        driver) rather than from the library's own field tables: the largest value and the top bit of every
+        unsigned integer field of every class, all other fields at their defaults"""
+        ops, meta = [], []
+        names = sorted(gen.concrete_classes())
+        layouts = common.run_spec(['spec.layout %s' % c for c in names])
+        for cname, lay in zip(names, layouts):
+            if lay in ('UNKNOWN', 'BAD-OP'):
+                continue
+            t = gen.TYPE_OF[cname][0]
+            fixed = dict(DISCR.get(cname, {}))
+            fixed['mmsi'] = 1
+            # the keyword arguments the class insists on (no default), found by asking it
+            import re
+            for _ in range(6):
+                try:
+                    gen.concrete_classes()[cname].create(**fixed)
+                    break
+                except TypeError as e:
+                    missing = re.findall(r"'(\w+)'", str(e))
+                    if not missing:
+                        break
+                    for m_ in missing:
+                        fixed.setdefault(m_, 1)
+                except Exception:  # noqa
+                    break
+            for fld in lay.split(';'):
+                name, w, kind = fld.split(':', 2)
+                if kind != 'u' or name in ('msg_type',) or name in DISCR.get(cname, {}):
+                    continue
+                for v in sorted({(1 << int(w)) - 1, 1 << (int(w) - 1)}):
+                    kw = dict([('type', t)] + [(k_, v_) for k_, v_ in fixed.items() if k_ != name] + [(name, v)])
+                    exp = {name: 'i:%d' % v}
+                    ops.append('encode_dict %s %s %s' % (b'AIVDM'.hex(), b'A'.hex(), kw_to_wire(kw)))
+                    meta.append((cname, 'type', exp, {'class': cname, 'via': 'type', 'op': ops[-1], 'expected': exp}))
+        return ops, meta
+
     def evaluate(self, ctx, ops, meta, corr=True):
         """encode (op) -> decode -> compare with the expected values"""
         outs = ctx.corr(ops, impl.step, 'encode') if corr else [impl.step(o) for o in ops]
@@ -283,7 +321,8 @@ class Prop:
 
     def run(self, ctx):
         ops, meta = self.make_cases(ctx, 40 if ctx.tier == 'quick' else 400)
-        self.evaluate(ctx, ops, meta)
+        ops2, meta2 = self.spec_cases()
+        self.evaluate(ctx, ops + ops2, meta + meta2)
 
     def search(self, ctx, broken):
         # more assignments per class, implementation only (the oracle is the expected value computed
